@@ -112,3 +112,39 @@ func VxC06_HypergeometricArgs() {
 
 // vxBetaIncUF: the incomplete beta function as an uninterpreted function of its arguments.
 func vxBetaIncUF(x, a, b float64) float64 { return vx.UFloat("betaincuf", x, a, b) }
+
+// VxC06_CDFSumsPMF: CDF(k) equals the sum of PMF over the integers <= floor(k), for every real k
+// (the solver partitions the line into the unit cells; on a cell both sides are evaluated on the real code).
+// C06: "CDF(k) equals the sum of PMF over integers <= floor(k)".
+//
+//vx:mode FP
+//vx:solver cvc5
+//vx:maxdec 100000
+//vx:maxsteps 200000000
+//vx:bound hypergeometric: N = 2..6 (quick) / 2..9 (thorough), every K, Draws <= N; binomial: N = 0..5 (quick) / 0..8 (thorough), P in {0.3, 0.5}; k any non-NaN float64; tolerance 1e-10
+//vx:outside agreement of PMF itself with the exact rational probability
+func VxC06_CDFSumsPMF() {
+	k := vx.Float("k")
+	vx.Assume(!math.IsNaN(k))
+	var pmf func(float64) float64
+	var cdf func(float64) float64
+	var lo, hi float64
+	if vx.Choose("binomial", 0, 1) == 1 {
+		d := BinomialDist{N: vx.Choose("N", 0, 5+3*vx.Tier()), P: []float64{0.3, 0.5}[vx.Choose("P", 0, 1)]}
+		pmf, cdf = d.PMF, d.CDF
+		lo, hi = d.Bounds()
+	} else {
+		N := vx.Choose("N", 2, 6+3*vx.Tier())
+		d := HypergeometicDist{N: N, K: vx.Choose("K", 0, N), Draws: vx.Choose("Draws", 0, N)}
+		pmf, cdf = d.PMF, d.CDF
+		lo, hi = d.Bounds()
+	}
+	vx.Assume(vx.And(k >= lo, k < hi+1))
+	ki := vx.Concretize(int(math.Floor(k)))
+	sum := 0.0
+	for j := int(lo); j <= ki; j++ {
+		sum += pmf(float64(j))
+	}
+	// (that a non-integer k is treated as floor(k) is decided in VxC06_*Args; here the cell's integer is used)
+	vx.Assert(math.Abs(cdf(float64(ki))-sum) <= 1e-10, "CDF(k) is the sum of PMF over the integers up to floor(k)")
+}
